@@ -44,6 +44,8 @@ OUTSIDE = [
     "that Lark's LALR(1) table realises the compiled productions: taken from LR theory, plus a logged-conflict check and a "
     "comparison of solver-model facts with the tree the real parser built on sampled words",
     "AST dump round trip beyond the enumerated words (there is no data for a solver to range over)",
+    "layout beyond the 14 templates of the symbolic-layout family (C06/layout/*: blanks between tokens, // comment bodies, string bodies as symbolic code points through the real Lark lexer); "
+    "'-1' lexed as a signed literal and keyword/RESERVED priority remain outside",
     "strings the real grammar accepts and the CEL grammar rejects (reported under converse_inclusion, never alarmed)",
 ]
 ASSUMPTIONS = [
@@ -59,6 +61,7 @@ def tasks(tier):
     """one task per N and question.  Ascending N: the driver reports the first few candidates per obligation in task order,
     so the shortest witnesses come first."""
     ts = [{"q": "lexer", "N": 0, "tier": tier}]
+    ts += [{"q": "symlex", "N": 0, "tier": tier, "family": f} for f in SYMLEX]
     for N in range(1, NMAX[tier] + 1):
         parts = N if N >= SPLIT_FROM else 1
         ts += [{"q": "structure", "N": N, "tier": tier, "part": [k, parts]} for k in range(parts)]
@@ -130,6 +133,94 @@ def _funcs(real):
     return sorted({f"celpy/cel.lark:{p[0]}" for p in real.prods}) + ["celpy/celparser.py:CELParser.__init__"]
 
 
+# ----------------------------------------------------------------------------- symbolic layout (engine E1 on the real Lark lexer)
+# templates: literal text with holes; W = one layout character (blank, tab, newline, carriage return, form feed), C = one character of a
+# // comment (anything but a line feed), S = one character inside a string literal (anything but the quote, backslash, line breaks)
+SYMLEX = {
+    "blank-between-tokens": ("a{W}+{W}b", "a + b"), "blank-around": ("{W}a * (b - 1){W}", "a * (b - 1)"), "blank-in-call": ("f({W}a,{W}b{W})", "f(a, b)"),
+    "blank-run": ("a{W}{W}?{W}b : c", "a ? b : c"), "comment-1": ("a //{C}\n+ b", "a + b"), "comment-2": ("a //{C}{C}\n+ b", "a + b"),
+    "comment-at-end": ("a + b //{C}{C}", "a + b"), "comment-after-comment": ("a //{C}\n//{C}\n&& b", "a && b"), "comment-then-blank": ("a //{C}\n{W}|| !b", "a || !b"),
+    "comment-in-list": ("[a, //{C}{C}\n b]", "[a, b]"), "string-body": ('x == "p{S}q"', None), "string-body-2": ("x == 'p{S}{S}'", None),
+    "keyword-then-blank": ("true{W}? null : false", "true ? null : false"), "in-operator": ("a{W}in{W}[b]", "a in [b]"),
+}
+
+
+def _symlex(E, real, task, res, kf):
+    """the real Lark lexer and LALR driver on a source with symbolic layout characters: for ALL choices of the blank characters, of the
+    characters inside // comments and inside string literals, the tree is the tree of the canonical single-space source (the literal's
+    token holding exactly the spelled characters)"""
+    from .. import explore
+    from ..explore import Harness, Ob
+    from ..sym import larkshim
+    from ..sym.strs import SStr, mks, cterms
+    from . import common
+    celpy, ct, ev = common.mods()
+    import celpy.celparser as cp
+    from ..oracles import c06 as O
+    common.make_program("1", "interp")
+    parser = cp.CELParser()
+    larkshim.install(larkshim.parser_of(parser, cp))
+    fam = task["family"]
+    tpl, canon = SYMLEX[fam]
+    terms, names, kinds = [], [], []
+    import re as _re
+    for part in _re.split(r"(\{[WCS]\})", tpl):
+        if _re.fullmatch(r"\{[WCS]\}", part):
+            n = f"h{len(names)}"
+            names.append(n)
+            kinds.append(part[1])
+            terms.append(z3.Int(n))
+        else:
+            terms += [z3.IntVal(ord(ch)) for ch in part]
+    vars = {n: z3.Int(n) for n in names}
+    pre = []
+    for n, k in zip(names, kinds):
+        v = vars[n]
+        pre += [v >= 0, v <= 0x10FFFF, z3.Not(z3.And(v >= 0xD800, v <= 0xDFFF))]
+        if k == "W":
+            pre.append(z3.Or([v == c for c in (32, 9, 10, 13, 12)]))
+        elif k == "C":
+            pre.append(v != 10)
+        else:
+            pre += [v != 10, v != 13, v != 92, v != 34, v != 39]
+    want = O.canon(parser.parse(canon)) if canon else None
+    hole_pos = [i for i, t in enumerate(terms) if not z3.is_int_value(t)]
+
+    def conc(vals):
+        return "".join(chr(vals[str(t)]) if not z3.is_int_value(t) else chr(t.as_long()) for t in terms)
+
+    def run(vals):
+        text = mks(SStr, terms, conc(vals))
+        try:
+            tree = parser.parse(text)
+        except cp.CELParseError as ex:
+            return [Ob(f"C06/layout/{fam}/parses", z3.BoolVal(False), note=f"parse error at {ex.line}:{ex.column} for {conc(vals)!r}")]
+        if want is not None:
+            got = O.canon(tree)
+            return [Ob(f"C06/layout/{fam}/same-tree", z3.BoolVal(got == want), note=f"{conc(vals)!r} parses to {got!r}, the canonical source {canon!r} to {want!r}")]
+        # string family: the literal token must hold exactly the spelled characters (terms), the rest of the tree is `x == <literal>`
+        toks = [t for t in tree.scan_values(lambda v: True) if getattr(t, "type", "") == "STRING_LIT"]
+        if len(toks) != 1:
+            return [Ob(f"C06/layout/{fam}/one-literal", z3.BoolVal(False), note=f"{len(toks)} string tokens")]
+        q = tpl.index("{S}") - 2
+        # Lark's Token copies the matched text (a plain str): the token is identified by its span in the source
+        ok = toks[0].start_pos == q and toks[0].end_pos == len(terms) and len(toks[0]) == len(terms) - q
+        return [Ob(f"C06/layout/{fam}/literal-text", z3.BoolVal(ok),
+                   note=f"the string token spans source[{toks[0].start_pos}:{toks[0].end_pos}], the spelled literal source[{q}:{len(terms)}]")]
+
+    def witness(vals):
+        return {"check": "c06.layout", "args": {"text": [ord(c) for c in conc(vals)], "canonical": canon, "holes": hole_pos}}
+
+    h = Harness(id=f"C06/layout/{fam}", vars=vars, pre=pre, run=run, witness=witness, max_paths=400)
+    r = explore.explore(h, kf).to_dict()
+    for k in ("paths", "transitions", "obligations", "discharged", "unknown", "divergences", "queries", "display", "aborted", "solver_s"):
+        res[k] = r.get(k, res.get(k, 0))
+    for k in ("pins", "ob_ids", "samples", "known_hits", "errors", "validate", "violations"):
+        res[k] = r.get(k, res[k])
+    res["budget_exhausted"] = r.get("budget_exhausted", False)
+    res["funcs"] += ["celpy/celparser.py:CELParser.parse", "lark lexer loop + LALR driver (pure Python) via vf/sym/larkshim.py"]
+
+
 def run_task(task, kf):
     from ..cfgsat import encode as E
     real = E.Real()
@@ -139,7 +230,7 @@ def run_task(task, kf):
     if real.conflicts:
         res["info"]["lalr_conflicts"] = real.conflicts[:10]
     {"structure": _structure, "language": _language, "ambiguity": _ambiguity, "dump": _dump, "cover": _cover,
-     "lexer": _lexer, "dumpfam": _dumpfam}[task["q"]](E, real, task, res, kf)
+     "lexer": _lexer, "dumpfam": _dumpfam, "symlex": _symlex}[task["q"]](E, real, task, res, kf)
     res["solver_s"] = round(res["solver_s"], 3)
     return [res]
 
